@@ -553,6 +553,7 @@ def do_check(cid, tier, seed):
     reported = {}
     known_hit = {}
     servers = {}
+    nd_seen = {}
     extra_classes = set()
     try:
         for engine, exe, cls, plan, detail in found:
@@ -574,7 +575,13 @@ def do_check(cid, tier, seed):
             # gate (a): same plan, second execution, same class
             r2 = srv.run(plan)
             if r2["ok"] or r2["class"] != cls:
-                print("HARNESS-ERROR nondeterministic violation: first %s then %s" % (cls, r2.get("class") if not r2["ok"] else "ok")); rc = max(rc, 2); continue
+                nd_seen[cls] = nd_seen.get(cls, 0) + 1
+                if nd_seen[cls] <= 3:
+                    nd = os.path.join(OUT, "replays", "%s-nondet-%s-%d.json" % (cid, hashlib.sha256(cls.encode()).hexdigest()[:8], nd_seen[cls]))
+                    os.makedirs(os.path.dirname(nd), exist_ok=True)
+                    json.dump({"property": cid, "engine": engine, "class": cls, "detail": detail, "seed": seed, "plan": plan}, open(nd, "w"), indent=1)
+                    print("HARNESS-ERROR nondeterministic violation: first %s then %s (plan idx %s, kept as %s)" % (cls, r2.get("class") if not r2["ok"] else "ok", plan.get("idx"), nd))
+                rc = max(rc, 2); continue
             plan = r2.get("plan") or plan      # engines narrow a sweep to the one failing element
             # a candidate may not take much longer than the original did, and minimisation as a whole is bounded
             t_first = time.time(); srv.run(plan); t_orig = time.time() - t_first
@@ -605,6 +612,8 @@ def do_check(cid, tier, seed):
             rc = max(rc, 1)
     finally:
         for srv in servers.values(): srv.close()
+    for c, n in sorted(nd_seen.items()):
+        if n > 3: print("HARNESS-ERROR nondeterministic violation %s: %d occurrences in all" % (c, n))
     if extra_classes:
         print("(%d further violation class(es) not minimised: %s ...)" % (len(extra_classes), ", ".join(sorted(extra_classes))[:600]))
     for kid, (k, cnt) in sorted(known_hit.items()):
